@@ -379,16 +379,18 @@ async def run_program(prog: dict[str, Any], out: dict[str, Any], pace_timeout: f
         sub = Broadcast(name="sub")
         _keep = sub.new_receiver(limit=1000)
         pool = FormulaEnginePool("ns", reg, sub.new_sender())
+        # (string formulas exist for every metric, not only for powers)
+        under_test = getattr(ComponentMetricId, prog.get("pool_metric") or "ACTIVE_POWER")
         decoy = pool.from_string(prog["src"], ComponentMetricId.REACTIVE_POWER, nones_are_zeros=naz)
         if prog.get("pool_prior_other_naz"):
             # somebody else started the same formula for the same metric before, with the other nones_are_zeros
-            pool.from_string(prog["src"], ComponentMetricId.ACTIVE_POWER, nones_are_zeros=not naz)
-        eng = pool.from_string(prog["src"], ComponentMetricId.ACTIVE_POWER, nones_are_zeros=naz)
-        out["pool_same_engine_again"] = pool.from_string(prog["src"], ComponentMetricId.ACTIVE_POWER, nones_are_zeros=naz) is eng
+            pool.from_string(prog["src"], under_test, nones_are_zeros=not naz)
+        eng = pool.from_string(prog["src"], under_test, nones_are_zeros=naz)
+        out["pool_same_engine_again"] = pool.from_string(prog["src"], under_test, nones_are_zeros=naz) is eng
         decoy_rx = decoy.new_receiver(max_size=200)
         decoy_senders = []
         for i in range(n):
-            name = ComponentMetricRequest("ns", i + 1, ComponentMetricId.ACTIVE_POWER, None).get_channel_name()
+            name = ComponentMetricRequest("ns", i + 1, under_test, None).get_channel_name()
             senders.append(reg.get_or_create(Sample[Quantity], name).new_sender())
             dname = ComponentMetricRequest("ns", i + 1, ComponentMetricId.REACTIVE_POWER, None).get_channel_name()
             decoy_senders.append(reg.get_or_create(Sample[Quantity], dname).new_sender())
